@@ -26,8 +26,9 @@
   The hypotheses the proof forced, all explicit and decidable (none is needed for the size half):
     * the input passes the reader, is shorter than 256 MiB (16-bit block numbers of the descriptor),
       and fiano read its headers as the specification does (`readAlikeB`: no section of an unlisted
-      type with 3-byte size FFFFFF; no extended header exactly 20 bytes before the end of a volume;
-      nested volumes have one block-map entry with a power-of-two size);
+      type with 3-byte size FFFFFF [finding F-c02c-1]; nested volumes have one block-map entry with a
+      power-of-two size [finding F-c02b-1]; the clause about an extended header 20 bytes before the end
+      of a volume is gone since round 3: fixed in /repo and in the shared parse model);
     * a new file is one the reader accepts, a new PE32 body fits a section (`SpecOk`);
     * the hooks for codecs / NVAR stores satisfy their laws (`BoundedCodecs`, `NvLaw`).
   `create-fv` (pkg/visitors/createfv.go) is modelled in Uefi/CreateFv.lean (tie T2:
@@ -38,6 +39,17 @@
   polarity 0xFF, and the padding it splits is entered at a multiple of 8 (anywhere else the new volume
   is never found again, finding F-c02b-3) and shows no volume signature at its probes.
   The older statements (size half, single layers, error half) are kept.
+
+  Round 3 (follow-up wp-c02c): `nvram-compact` is an operation of the edit language (`Op3`, `run3`, `utk3`:
+  Uefi/EditValidOpsDefs.lean; the visitor is an editor of the generic tree rewriting, the store compaction a
+  parameter).  It keeps `TreeOk` (`nvCompact_valid`), so the ONE theorem covers command lines that contain it
+  (`edits_valid_ops_tree`, `edits_valid_ops`).  For the instance the driver runs — C10's model of the NVAR
+  store as the NVAR hooks and as the compaction — the laws the theorems ask of hooks and compaction are
+  PROVED for all inputs (`nvCompact_model_law`, `nvHooks_model_law`), which gives `edits_valid_nvram` without
+  any hypothesis about hooks; `sample_nvcompact_valid` applies it to a run that compacts a store and writes.
+  `create-fv` under erase polarity 0 is inside the statement now: the new volume poisons the tree, every later
+  save fails and nothing is written (`save_refuses_conflicting_polarity`, `createFv_polarity0_writes_nothing`),
+  hence `edits_valid_nvram_anypol` with the weaker guard `Guard3w`.
 -/
 import FianoModel.Uefi.ParseSized
 import FianoModel.Uefi.SectionLemmas
@@ -47,6 +59,11 @@ import FianoModel.Uefi.ParseOk12
 import FianoModel.Uefi.CreateFvOk4
 import FianoModel.Uefi.CreateFvSample
 import FianoModel.Uefi.SampleC04
+import FianoModel.Uefi.EditValidOps3
+import FianoModel.Uefi.EditValidOpsNvLaw
+import FianoModel.Uefi.EditValidOpsSampleOk
+import FianoModel.Uefi.EditValidOps4
+import FianoModel.Uefi.CreateFvPol0Sample
 
 namespace Fiano.Uefi.C02
 open EditArith
@@ -663,4 +680,194 @@ theorem sample_createfv_valid : ∃ r, run2 hooks sampleOps2 sampleRun0 = .ok r 
       hg hok (by rw [hroot]; omega) (by intro b hb; cases hb)
     rw [hroot] at this
     exact this
+
+/-! ### `nvram-compact` inside the edit language (follow-up wp-c02c; model: Uefi/EditValidOpsDefs.lean,
+    tie T2: harness/props/c02/ops3.go, driver request `run3`) -/
+
+/-- **`nvram-compact` keeps the invariant of the central theorem** (and the size of the image): the
+    visitor rewrites the store below every file that carries one, nested volumes included, and leaves
+    everything else alone; the file is again one `Assemble` can size from the store's `Length` and fill
+    from its `Buf`.  `c.Law` = the compaction turns a store with `Length = |Buf|` into such a store
+    (any erase polarity). -/
+theorem nvCompact_valid (c : NvCompactFn) (hc : c.Law) (pol : UInt8) (t t' : Tree) (hok : TreeOk t)
+    (h : nvCompactOp c pol t = .ok t') : TreeOk t' ∧ rootLen t' = rootLen t :=
+  nvCompactOp_ok c hc pol t t' hok h
+
+/-- **`edits_valid` for command lines with `create-fv` and `nvram-compact`, from a tree**: whatever the
+    sequence of insert ×5 / pad_file / insert_dxe / remove / remove_pad / replace_pe32 / create-fv /
+    nvram-compact / save / read-only commands — if the run succeeds, every image it wrote passes the
+    independent reader and has the size the tree stands for -/
+theorem edits_valid_ops_tree (h : Hooks) (hlaw : h.NvLaw) (c : NvCompactFn) (hc : c.Law) (ops : List Op3) (t : Tree)
+    (st : St) (s' : Run)
+    (hr : run3 h c ops { tree := t, st := st } = .ok s') (hops : ∀ op ∈ ops, Op3Ok op)
+    (hg : Guard3 h c ops { tree := t, st := st }) (hok : TreeOk t) (hL : rootLen t < 2 ^ 31) :
+    ∀ b ∈ s'.outs, Valid.validImage b = true ∧ b.length = rootLen t :=
+  run3_valid h hlaw c hc ops _ s' hr hops hg hok hL (by intro b hb; cases hb)
+
+/-- **`edits_valid` for command lines with `create-fv` and `nvram-compact`, from the bytes**: `hcl` =
+    the hooks under which the new files of the command line are read, `h` = the hooks of `uefi.Parse`
+    and of the run (with an NVAR parser the stores become nodes of the tree), `c` = the store compaction -/
+theorem edits_valid_ops (hcl h : Hooks) (hb : h.BoundedCodecs) (hlaw : h.NvLaw) (c : NvCompactFn) (hc : c.Law)
+    (image : Bytes) (specs : List OpSpec3) (r : Run)
+    (hu : utk3 hcl h c image specs = .ok r)
+    (hv : Valid.validImage image = true) (hL : image.length < 65536 * 4096)
+    (hspecs : ∀ s, .base (.base s) ∈ specs → SpecOk hcl s)
+    (hRA : ∀ ops st t st', cliParse3 hcl specs {} = .ok (ops, st) →
+      parseWith h (defaultFuel image) image st = .ok (t, st') → readAlikeB t = true)
+    (hG : ∀ ops st t st', cliParse3 hcl specs {} = .ok (ops, st) →
+      parseWith h (defaultFuel image) image st = .ok (t, st') → Guard3 h c ops { tree := t, st := st' }) :
+    ∀ b ∈ r.outs, Valid.validImage b = true ∧ b.length = image.length :=
+  edits_valid3_tree hcl h hb hlaw c hc image specs r hu hv hL hspecs hRA hG
+
+
+/-- **C10's model of `nvram-compact` satisfies the law** the theorems ask of the compaction (`CompactLaw`),
+    for every store (well formed or not) and every erase polarity: the GUIDs the store parser yields are
+    16 bytes long, so the table the compaction rebuilds is `16 · n` bytes and the new buffer (entries,
+    erased gap, table) is `Length` bytes long -/
+theorem nvCompact_model_law : compactC10.Law := compactC10_law
+
+/-- **C10's model of `NewNVarStore` / `Assemble` of a store satisfies `NvLaw`**, the law `edits_valid` asks of
+    the NVAR hooks; and these hooks know no codec -/
+theorem nvHooks_model_law (pol : UInt8) : (hooksC10 pol).NvLaw ∧ (hooksC10 pol).BoundedCodecs :=
+  ⟨hooksC10_nvLaw pol, by intro g c x y hc _; cases hc⟩
+
+/-- **`edits_valid` with `create-fv` and `nvram-compact`, from the bytes, for the model the driver runs**
+    (no hypothesis about hooks or compaction is left): the image is parsed with C10's model of the NVAR
+    store as the NVAR hooks (stores parsed under polarity `pol`), the new files of the command line are read
+    without NVAR parsing (`Hooks.none`: Go reads them before any volume has set the erase polarity), and
+    `nvram-compact` runs C10's model of the compaction.  If `utk` succeeds, every image it wrote passes the
+    independent reader and has the size of the input. -/
+theorem edits_valid_nvram (pol : UInt8) (image : Bytes) (specs : List OpSpec3) (r : Run)
+    (hu : utk3 Hooks.none (hooksC10 pol) compactC10 image specs = .ok r)
+    (hv : Valid.validImage image = true) (hL : image.length < 65536 * 4096)
+    (hspecs : ∀ s, .base (.base s) ∈ specs → SpecOk Hooks.none s)
+    (hRA : ∀ ops st t st', cliParse3 Hooks.none specs {} = .ok (ops, st) →
+      parseWith (hooksC10 pol) (defaultFuel image) image st = .ok (t, st') → readAlikeB t = true)
+    (hG : ∀ ops st t st', cliParse3 Hooks.none specs {} = .ok (ops, st) →
+      parseWith (hooksC10 pol) (defaultFuel image) image st = .ok (t, st') →
+      Guard3 (hooksC10 pol) compactC10 ops { tree := t, st := st' }) :
+    ∀ b ∈ r.outs, Valid.validImage b = true ∧ b.length = image.length :=
+  edits_valid3_tree Hooks.none (hooksC10 pol) (nvHooks_model_law pol).2 (nvHooks_model_law pol).1 compactC10
+    compactC10_law image specs r hu hv hL hspecs hRA hG
+
+/-- without `create-fv` on the command line `Guard3` asks nothing -/
+theorem guard3_no_createfv (h : Hooks) (c : NvCompactFn) : ∀ (ops : List Op3) (s : Run),
+    (∀ a z n, Op3.base (.createFv a z n) ∉ ops) → Guard3 h c ops s
+  | [], _, _ => trivial
+  | op :: ops, s, hn => by
+    refine ⟨?_, fun s' _ => guard3_no_createfv h c ops s' (fun a z n hm => hn a z n (by simp [hm]))⟩
+    cases op with
+    | nvCompact => trivial
+    | base op2 =>
+      cases op2 with
+      | base _ => trivial
+      | createFv a z n => exact absurd (by simp) (hn a z n)
+
+
+open NvSample in
+/-- **the hypotheses of `edits_valid_nvram` are jointly satisfiable on a run that compacts a store and
+    writes**: on the 872-byte sample image (a full volume whose last file is a checksummed NVAR file holding
+    a store with a deleted entry) `utk image nvram-compact save` succeeds on the model the driver runs, the
+    parsed tree holds the store as a node, one image is written, it differs from the input — and therefore
+    passes the independent reader and has 872 bytes -/
+theorem sample_nvcompact_valid : ∃ r, utk3 Hooks.none (hooksC10 0xFF) compactC10 nvSample nvSpecs = .ok r ∧
+    r.outs.length = 1 ∧ (∀ b ∈ r.outs, b ≠ nvSample) ∧
+    ∀ b ∈ r.outs, Valid.validImage b = true ∧ b.length = 872 := by
+  have hs := nvSample_run
+  match hu : utk3 Hooks.none (hooksC10 0xFF) compactC10 nvSample nvSpecs with
+  | .error _ => rw [hu] at hs; cases hs
+  | .ok r =>
+    rw [hu] at hs
+    simp only [Bool.and_eq_true, beq_iff_eq, List.all_eq_true, bne_iff_ne, ne_eq] at hs
+    refine ⟨r, rfl, hs.1, hs.2, ?_⟩
+    have hcli : ∀ ops st, cliParse3 Hooks.none nvSpecs {} = .ok (ops, st) →
+        st = {} ∧ ops = [.nvCompact, .base (.base .save)] := by
+      intro ops st hc
+      simp only [nvSpecs, cliParse3, cliOne] at hc
+      cases hc
+      exact ⟨rfl, rfl⟩
+    have hlen : nvSample.length = 872 := nvSample_len
+    have := edits_valid_nvram 0xFF nvSample nvSpecs r hu nvSample_valid (by rw [hlen]; omega) ?_ ?_ ?_
+    · rw [hlen] at this; exact this
+    · intro s hs'
+      simp only [nvSpecs, List.mem_cons, List.not_mem_nil, or_false] at hs'
+      rcases hs' with hs' | hs'
+      · cases hs'
+      · cases hs'; trivial
+    · intro ops st t st' hc hp
+      obtain ⟨rfl, _⟩ := hcli ops st hc
+      have h2 := nvSample_readAlike
+      rw [hp] at h2
+      simp only [Bool.and_eq_true] at h2
+      exact h2.1
+    · intro ops st t st' hc _
+      obtain ⟨_, rfl⟩ := hcli ops st hc
+      exact guard3_no_createfv _ _ _ _ (by intro a z n hm; simp at hm)
+
+
+/-! ### `create-fv` under erase polarity 0 (follow-up wp-c02c; Uefi/CreateFvPol0.lean) -/
+
+open Pol0
+
+/-- **`save` fails on a tree that holds a top-level volume of the other erase polarity** (the error half of
+    C02 for this case: `Assemble` returns "conflicting erase polarities", and `save_atomic` says that
+    nothing is written then) -/
+theorem save_refuses_conflicting_polarity (h : Hooks) (t : Tree) (st : St) (hset : st.pol ≠ 0xF0)
+    (hp : Poisoned st.pol t) : ∃ e, asmTreeWith h t st = .error e := by
+  match ha : asmTreeWith h t st with
+  | .error e => exact ⟨e, rfl⟩
+  | .ok (t', st') => exact absurd hp (asmTree_clean h t t' st st' ha hset)
+
+/-- **`create-fv` in a process whose erase polarity is not 0xFF**: the new volume always announces
+    polarity 0xFF (attributes 0x0004FEFF), so the tree is poisoned; whatever follows — modelled operations,
+    further create-fv, nvram-compact, saves — a run that succeeds has written nothing after it -/
+theorem createFv_polarity0_writes_nothing (h : Hooks) (c : NvCompactFn) (a z : Nat) (n : Guid) (ops : List Op3)
+    (s r : Run) (hset : s.st.pol ≠ 0xF0) (hpol : s.st.pol ≠ 0xFF)
+    (hr : run3 h c (.base (.createFv a z n) :: ops) s = .ok r) : r.outs = s.outs :=
+  createFv_wrong_polarity_writes_nothing h c a z n ops s r hset hpol hr
+
+open Pol0Sample in
+/-- non-vacuity: on the sample of erase polarity 0 `create-fv` does succeed (so the theorem above is about
+    runs that exist), the process polarity is set and is not 0xFF, and the tree it leaves is poisoned -/
+theorem sample_createfv_polarity0 : ∃ r, run3 Hooks.none compactC10 [.base (.createFv 112 4096 Pol0Sample.newName)] pol0Run = .ok r ∧
+    pol0Run.st.pol ≠ 0xF0 ∧ pol0Run.st.pol ≠ 0xFF ∧ Poisoned 0 r.tree := by
+  have hs := pol0_createfv
+  match hu : run3 Hooks.none compactC10 [.base (.createFv 112 4096 Pol0Sample.newName)] pol0Run with
+  | .error _ => rw [hu] at hs; cases hs
+  | .ok r =>
+    refine ⟨r, rfl, by decide, by decide, ?_⟩
+    rw [run3] at hu
+    split at hu
+    · cases hu
+    · rename_i s1 hs1
+      rw [run3] at hu
+      cases hu
+      rw [step3, step2] at hs1
+      split at hs1
+      · cases hs1
+      · rename_i t ht
+        cases hs1
+        exact createFvOp_poisons _ _ _ _ _ _ ht (by decide)
+
+/-- **`edits_valid` for the whole modelled edit language under any erase polarity, from the bytes, for the
+    model the driver runs**: insert ×5, pad_file, insert_dxe, remove, remove_pad, replace_pe32, create-fv,
+    nvram-compact, saves, read-only commands.  `Guard3w` asks of every `create-fv` that the process
+    polarity is set and — under polarity 0xFF only — that it enters its padding as `CreateFvPre` says. -/
+theorem edits_valid_nvram_anypol (pol : UInt8) (image : Bytes) (specs : List OpSpec3) (r : Run)
+    (hu : utk3 Hooks.none (hooksC10 pol) compactC10 image specs = .ok r)
+    (hv : Valid.validImage image = true) (hL : image.length < 65536 * 4096)
+    (hspecs : ∀ s, .base (.base s) ∈ specs → SpecOk Hooks.none s)
+    (hRA : ∀ ops st t st', cliParse3 Hooks.none specs {} = .ok (ops, st) →
+      parseWith (hooksC10 pol) (defaultFuel image) image st = .ok (t, st') → readAlikeB t = true)
+    (hG : ∀ ops st t st', cliParse3 Hooks.none specs {} = .ok (ops, st) →
+      parseWith (hooksC10 pol) (defaultFuel image) image st = .ok (t, st') →
+      Guard3w (hooksC10 pol) compactC10 ops { tree := t, st := st' }) :
+    ∀ b ∈ r.outs, Valid.validImage b = true ∧ b.length = image.length :=
+  edits_valid3_anypol Hooks.none (hooksC10 pol) (nvHooks_model_law pol).2 (nvHooks_model_law pol).1 compactC10
+    compactC10_law image specs r hu hv hL hspecs hRA hG
+
+/-- `Pre3w` under polarity 0 asks nothing but a set polarity -/
+example (a z : Nat) (n : Guid) (t : Tree) : Pre3w (.base (.createFv a z n)) { tree := t, st := { pol := 0 } } :=
+  ⟨(by show (0 : UInt8) ≠ 0xF0; decide), fun h => absurd (show (0 : UInt8) = 0xFF from h) (by decide)⟩
+
 end Fiano.Uefi.C02
